@@ -135,6 +135,16 @@ pub fn run_case<G: AffineRepr>(run: u64, case: &Case, st: &mut Stats) {
     }
     let r_on_clone = v.log.iter().any(|o| matches!(o, MOp::Challenge { t, label, .. } if clone_children.contains(t) && label == b"r"));
     let r_on_main = v_ops.iter().any(|o| matches!(o, SOp::Challenge { label, .. } if label == b"r"));
+    // ... and that clone must be taken only after the whole proof was absorbed:
+    // no main-transcript operation may follow it
+    let clone_pos = v.log.iter().position(|o| matches!(o, MOp::Clone { parent, child } if *parent == v.tid && v.log.iter().any(|c| matches!(c, MOp::Challenge { t, label, .. } if t == child && label == b"r"))));
+    let last_main = v.log.iter().rposition(|o| matches!(o, MOp::Append { t, .. } | MOp::Challenge { t, .. } if *t == v.tid));
+    if let (Some(cp), Some(lm)) = (clone_pos, last_main) {
+        if lm > cp {
+            viol(st, "r-derived-after-all-messages", format!("the verifier's weight r is squeezed from a clone taken at log position {} but the main transcript absorbs more until position {}: r does not bind the whole proof", cp, lm), None);
+            return;
+        }
+    }
     if r_on_main || !r_on_clone {
         viol(st, "r-from-clone", format!("verifier weight r: on main transcript={}, on a clone={}", r_on_main, r_on_clone), None);
         return;
@@ -237,4 +247,9 @@ pub fn replay(case: &Value) -> Vec<Violation> {
     let mut st = Stats::default();
     with_curve!(case.base.st.curve, G, run_case::<G>(0, &case, &mut st));
     st.violations
+}
+
+pub fn shrink(case: &Value) -> Vec<Value> {
+    let Ok(c) = serde_json::from_value::<Case>(case.clone()) else { return vec![] };
+    shrink_session(&c.base).into_iter().map(|(b, _)| to_value(&Case { base: b, tampers: c.tampers.clone() })).collect()
 }
